@@ -357,6 +357,9 @@ func judgeExpectedHits(r *Run, j *Judged, cl []*cls, by map[int]*OResp) {
 			if classKey(vary, o.Req.Header) != K {
 				continue
 			}
+			if o.Is304 && noStoreExchange(o) {
+				continue // leaves the store as it was
+			}
 			if L == nil || o.SeqResp > L.SeqResp {
 				L = o
 			}
